@@ -105,6 +105,7 @@ func runC20(p *core.Prog, r *core.Report) {
 	cut := sx.Cut{Instrs: map[ssa.Instruction]bool{}}
 	var notifySig string
 	var notifyChan ssa.Value
+	extraSigs := ""
 	for _, fn := range fns {
 		sx.Instrs(fn, func(in ssa.Instruction) {
 			if c, ok := in.(*ssa.Call); ok && isNotify(c) {
@@ -112,6 +113,14 @@ func runC20(p *core.Prog, r *core.Report) {
 				notifySig = sigOf(variadicElem(c.Call.Args[1]))
 				if fn == launcher {
 					notifyChan = c.Call.Args[0]
+				}
+				// the hand-shake channel hears the hand-shake signal only: any other signal delivered to it would be taken for Done()
+				if el := variadicElems(c.Call.Args[1]); len(el) != 1 {
+					var names []string
+					for _, e := range el {
+						names = append(names, sigOf(e))
+					}
+					extraSigs = fmt.Sprintf("signal.Notify at %s registers %d signals (%s) on the hand-shake channel: a signal other than Done()'s — a SIGTERM or SIGHUP sent to the launcher while the daemon is still starting — ends the wait, the launcher exits 0 and Launch returns nil and a pid before Done() was called", p.Pos(c.Pos()), len(el), strings.Join(names, ", "))
 				}
 			}
 		})
@@ -133,6 +142,7 @@ func runC20(p *core.Prog, r *core.Report) {
 	r.Check(okR1, "C20-R1", fnName(launcher)+": signal.Notify before cmd.Start", p.Pos(startCall.Pos()),
 		"every path to cmd.Start passes signal.Notify: the launcher listens before the daemon exists",
 		"cmd.Start() is reachable without signal.Notify having been called: a daemon that calls Done() at once signals a launcher that still has the default SIGINT action — the launcher dies and Launch reports failure for a running daemon")
+	r.Check(extraSigs == "", "C20-R1", "the hand-shake channel is registered for the hand-shake signal only", p.FuncPos(launcher), "signal.Notify(ch, one signal)", extraSigs)
 	// Done sends the same signal
 	doneFn := p.Func("daemon", "Done")
 	okSig := false
@@ -146,6 +156,33 @@ func runC20(p *core.Prog, r *core.Report) {
 				}
 			}
 		})
+	}
+	if doneFn != nil {
+		// every way out of Done has sent the signal, or could not find the parent process
+		dv := p.Inl(doneFn)
+		cutD := sx.Cut{Instrs: map[ssa.Instruction]bool{}, Edges: map[sx.Edge]bool{}}
+		sx.Instrs(dv, func(in ssa.Instruction) {
+			c, ok := in.(*ssa.Call)
+			if !ok {
+				return
+			}
+			switch sx.CalleeName(c) {
+			case "(*os.Process).Signal":
+				cutD.Instrs[in] = true
+			case "os.FindProcess":
+				_, nonNil := sx.NilEdges(c)
+				for e := range nonNil {
+					cutD.Edges[e] = true
+				}
+			}
+		})
+		okAlways := len(cutD.Instrs) > 0
+		for _, ret := range sx.Returns(dv) {
+			if !sx.MustPass(dv, nil, ret, cutD) {
+				okAlways = false
+			}
+		}
+		r.Check(okAlways, "C20-R1", "Done signals the launcher on every path", p.FuncPos(doneFn), "every return is behind p.Signal(…) or behind the error edge of os.FindProcess", "Done can return without having signalled its parent although the parent process was found (a guard on the environment, a flag, …): the launcher keeps waiting, Launch does not return until the daemon exits")
 	}
 	r.Check(okSig, "C20-R1", "Done sends the signal the launcher listens for", p.FuncPos(doneFn), "both are "+notifySig, "Done sends "+sent+" but the launcher listens for "+notifySig)
 
@@ -502,11 +539,21 @@ func runC20(p *core.Prog, r *core.Report) {
 			}
 			f := sx.FieldOf(fa)
 			switch f.Name() {
-			case "Stdout", "Stderr":
+			case "Stdin", "Stdout", "Stderr":
 				org := sx.Origins(st.Val)
 				fresh := len(org) == 1 && org["alloc"]
-				if org["global:Stdout"] || org["global:Stderr"] {
+				if org["global:Stdout"] || org["global:Stderr"] || org["global:Stdin"] {
 					return // inherited os.Stdout / os.Stderr
+				}
+				if fn == launcher {
+					// the daemon outlives the launcher: a stream that is not a file is served by a pipe and a copying goroutine
+					// inside the launcher — once the launcher has exited, the daemon's next write gets SIGPIPE
+					isFile := false
+					if mi, ok := st.Val.(*ssa.MakeInterface); ok {
+						isFile = mi.X.Type().String() == "*os.File"
+					}
+					r.Check(isFile || sx.IsNilConst(st.Val), "C20-R3", fnName(fn)+": the daemon's "+f.Name()+" does not depend on the launcher staying alive", p.Pos(in.Pos()), "nil or an *os.File", "the daemon's "+f.Name()+" is "+keys(org)+", not a file: os/exec serves it through a pipe read by the launcher, which exits at Done() — the daemon is killed by SIGPIPE on its next write and does not keep running")
+					return
 				}
 				r.Check(fresh, "C20-R3", fnName(fn)+": cmd."+f.Name()+" is a buffer owned by this call", p.Pos(in.Pos()), "a local buffer", "cmd."+f.Name()+" is "+keys(org)+" — not a buffer created for this call (pooled or shared buffers keep the bytes of an earlier, possibly failed, launch: a later Launch then reports the old error or the old pid)")
 			case "Env":
